@@ -393,7 +393,9 @@ def run (s : String) : String :=
            -- `safe`: the hypothesis of the C01 / C02 theorems, evaluated on this rendering (both writers)
            let fl (b : Bool) := if b then "1" else "0"
            "ok " ++ encodeStr t ++ " [" ++ ",".intercalate (vs.map showVal) ++ "] " ++ encodeStr (textI d ps) ++
-             " safe:" ++ fl (SeaQ.Scan.safe d false false 0 ps) ++ fl (SeaQ.Scan.safe d true false 0 ps)
+             " safe:" ++ fl (SeaQ.Scan.safe d false false 0 ps) ++ fl (SeaQ.Scan.safe d true false 0 ps) ++
+             -- `content`: the hypothesis of `render_safe` (then `safe` is a theorem, not an evaluation)
+             " content:" ++ fl (ps.all (SeaQ.Scan.contentOK d false)) ++ fl (ps.all (SeaQ.Scan.contentOK d true))
        | none => "bad-op")
     | _, _ => "bad-op"
   | _ => "bad-op"
